@@ -57,7 +57,46 @@ def oracle_adapt_bigid(ops, impl):
 ADAPT_BIGID_MPI = Stream('cli_adapt_metric_2d_bigid_mpi', cli.cli_harness, None, gen_adapt_bigid, oracle=oracle_adapt_bigid,
                          kind='oracle', np=[2, 3], nontrivial=lambda op, out: out.startswith('rc=0'), timeout=900)
 
-STREAMS = [streams_metric.INTERP_KERNEL, streams_metric.INTERP_GRID, cli.ADAPT_METRIC, ADAPT_BIGID_MPI]
+# ---- log-linear exactness end to end (serial and on truly partitioned grids): the field log M(x) = log M0 + 2 (g.x) I is
+# affine in x, so every output vertex - inserted, smoothed, migrated - must carry exp(L(x_v)) to round-off.
+def gen_adapt_loglin(rng, tier, np=0):
+    ops = []
+    for k in range(2 if tier == 'quick' else 5):
+        th = rng.uniform(0, 3.1)
+        g = [rng.uniform(-0.8, 0.8) for _ in range(3)]
+        if k % 2 == 0 or tier == 'quick':
+            # 2-D, enough vertices that ref_migrate_to_balance keeps several partitions active when np > 1
+            n = rng.choice([50, 60, 70]) if np else rng.choice([12, 20, 30])
+            hx, hy = rng.uniform(0.03, 0.06), rng.uniform(0.015, 0.03)
+            ops.append('adapt dim=2 n=%d,%d jitter=%s mseed=%d metric=loglin:%.4f,%.4f,1,%.4f,%.4f,%.4f,0 passes=%d np=%d' % (
+                n, n, rng.choice(['0', '0.2']), rng.randint(1, 10 ** 6), hx, hy, th, g[0], g[1], rng.choice([2, 3, 4]), np))
+        else:
+            n = rng.choice([14, 16]) if np else rng.choice([4, 6])
+            h = [rng.uniform(0.08, 0.14), rng.uniform(0.05, 0.1), rng.uniform(0.08, 0.14)]
+            ops.append('adapt dim=3 n=%d,%d,%d jitter=%s mseed=%d metric=loglin:%.4f,%.4f,%.4f,%.4f,%.4f,%.4f,%.4f passes=%d np=%d' % (
+                n, n, n, rng.choice(['0', '0.2']), rng.randint(1, 10 ** 6), h[0], h[1], h[2], th, g[0], g[1], g[2],
+                rng.choice([2, 3]), np))
+    return ops
+
+
+def oracle_adapt_loglin(ops, impl):
+    bad = []
+    for i, (op, line) in enumerate(zip(ops, impl)):
+        rc = cli.parse_out(line).get('rc')
+        if rc != '0':
+            bad.append((i, 'adapt with a log-linear metric exited with status %s' % rc))
+    return bad + list(cli.oracle_adapt_metric(ops, impl))
+
+
+ADAPT_LOGLIN = Stream('cli_adapt_loglin', cli.cli_harness, None, gen_adapt_loglin, oracle=oracle_adapt_loglin,
+                      kind='oracle', nontrivial=lambda op, out: out.startswith('rc=0'), timeout=1800)
+ADAPT_LOGLIN_MPI = Stream('cli_adapt_loglin_mpi', cli.cli_harness, None, gen_adapt_loglin, oracle=oracle_adapt_loglin,
+                          kind='oracle', np=[2, 4], nontrivial=lambda op, out: out.startswith('rc=0'), timeout=1800)
+
+STREAMS = [streams_metric.INTERP_KERNEL, streams_metric.INTERP_GRID, cli.ADAPT_METRIC, ADAPT_BIGID_MPI, ADAPT_LOGLIN]
+# ADAPT_LOGLIN_MPI is registered once the defect it exposes on the unchanged tree (refmpi adapt, >= 2 active partitions: a few
+# vertices off by 1e-5..1e-3 for a log-linear field) is root-caused: then either repaired in /repo or listed as a known finding
+PENDING_STREAMS = [ADAPT_LOGLIN_MPI]
 
 EXPLANATION = (
     'Proved in Lean over the reals, about the executable model (Refine/Model/Metric.lean: interpolateNode = '
